@@ -455,6 +455,25 @@ func vsGenTerms(T *sim.Tape, m *vsModel, allowEmpty bool) []vsTerm {
 		n = 1
 	}
 	var terms []vsTerm
+	if len(pool) > 0 && T.Intn(4, "range-stack") == 0 {
+		// three or four range terms on one key, tightening and redundant ones in drawn order
+		k := pool[T.Intn(len(pool), "stack-key")].k
+		var vs []string
+		for _, q := range pool {
+			if q.k == k {
+				vs = append(vs, q.v)
+			}
+		}
+		vs = append(vs, "", "~", "0", "m")
+		m := 3 + T.Intn(2, "stack-n")
+		for i := 0; i < m; i++ {
+			terms = append(terms, vsTerm{k, []byte{'<', '>'}[T.Intn(2, "stack-op")], vs[T.Intn(len(vs), "stack-val")]})
+		}
+		if T.Bool("stack-plus-eq") {
+			terms = append(terms, vsTerm{k, ':', vs[T.Intn(len(vs)-4, "stack-eq")]})
+		}
+		return terms
+	}
 	for i := 0; i < n; i++ {
 		var t vsTerm
 		switch {
